@@ -12,6 +12,13 @@ abstract model `usys` that the cancellation theorems are about.
 (b) orientational prefactors of real pathways built on a stub aggregate with arbitrary four dipoles are
 compared with Model.C12.orient and monitored against two independent numerical averages over SO(3)
 (icosahedral group, Euler-angle product quadrature exact for degree 4).
+(c) the pathway OBJECT: random programs of add_transition / add_transfer / set_evolution_factor (the six diagrams with random
+states, perturbed: wrong states, sides other than +-1, extra / missing transfers and interactions, other orders and relax orders,
+intervals outside the arrays, no interval at all) on real liouville_pathway objects over a stub aggregate are compared with the
+state machine of Model/C12x.v (raise <-> None; otherwise every array, counter, the current state, F4n, sign, prefactor);
+(d) what MockTwoDResponseCalculator.calculate_pathway hands to the line-shape functions (recording stand-ins) against calc_args4.
+Static tie (harness/translate_c12.py): generators, dispatch, object methods, orientational factor and calculator selection are
+translated from the current source on every run and proved equal to the model (GenC12.v).
 Monitors on the MockTwoDResponseCalculator: total = rephasing + non-rephasing, invariance under a common
 rotation of the dipoles / of the polarisations, quartic scaling (exact for powers of two), additivity for
 uncoupled molecules (ESA cancels the cross peaks), symmetry under relabelling the molecules.
@@ -587,8 +594,206 @@ def run_gen(chk, c):
     return lit, ulit
 
 
+
+# ------------------------------------------------------------------ the pathway object against the machine of Model/C12x.v
+DIAGRAMS = {
+    # name: (ptype, relax, [ops with symbolic states]) ; g = ground, a,b = first pair, c,d = after transfer, f = last
+    "R1g": ("NR", 1, [("T", "a", "g", 1, 1), ("T", "b", "g", -1, 0), ("X", "c", "d", "a", "b"), ("E",), ("T", "f", "d", -1, 0), ("T", "f", "c", 1, 3)]),
+    "R2g": ("R", 1, [("T", "a", "g", -1, 1), ("T", "b", "g", 1, 0), ("X", "c", "d", "b", "a"), ("E",), ("T", "f", "d", -1, 0), ("T", "f", "c", 1, 3)]),
+    "R3g": ("R", 0, [("T", "a", "g", -1, 1), ("T", "f", "a", -1, 0), ("T", "b", "g", 1, 0), ("T", "f", "b", 1, 3), ("E",)]),
+    "R4g": ("NR", 0, [("T", "a", "g", 1, 1), ("T", "f", "a", 1, 0), ("T", "b", "f", 1, 0), ("T", "g", "b", 1, 3), ("E",)]),
+    "R1f*": ("R", 1, [("T", "a", "g", -1, 1), ("T", "b", "g", 1, 0), ("X", "c", "d", "b", "a"), ("E",), ("T", "f", "c", 1, 0), ("T", "d", "f", 1, 3)]),
+    "R2f*": ("NR", 1, [("T", "a", "g", 1, 1), ("T", "b", "g", -1, 0), ("X", "c", "d", "a", "b"), ("E",), ("T", "f", "c", 1, 0), ("T", "d", "f", 1, 3)]),
+}
+NST = 6
+
+
+def gen_obj(r, k):
+    name = r.choice(sorted(DIAGRAMS))
+    ptype, relax, tpl = DIAGRAMS[name]
+    st = {"g": 0 if r.random() < 0.8 else r.randrange(NST)}
+    for s in "abcdf":
+        st[s] = r.randrange(NST)
+    ops = []
+    for o in tpl:
+        if o[0] == "T":
+            w, g = (r.choice([0.25, 0.5, 1.0, 1.5]), r.choice([0.125, 0.25, 0.5])) if o[4] > 0 else (-1.0, -1.0)
+            ops.append(["T", st[o[1]], st[o[2]], o[3], o[4], w, g])
+        elif o[0] == "X":
+            ops.append(["X", st[o[1]], st[o[2]], st[o[3]], st[o[4]]])
+        else:
+            ops.append(["E", r.choice([1, 0.5, -1, 0, 2]), r.choice([0, 0, 1, -0.5])])
+    order, popt = 3, 1 if relax else 0
+    npert = r.choice([0, 0, 1, 1, 1, 2])
+    for _ in range(npert):
+        u = r.randrange(12)
+        ti = [i for i, o in enumerate(ops) if o[0] == "T"]
+        xi = [i for i, o in enumerate(ops) if o[0] == "X"]
+        if u == 0 and ti:
+            i = r.choice(ti)
+            ops[i][r.choice([1, 2])] = r.randrange(NST)              # wrong state
+        elif u == 1 and ti:
+            i = r.choice(ti)
+            ops[i][3] = -ops[i][3]                                   # other side
+        elif u == 2 and ti:
+            ops[r.choice(ti)][3] = r.choice([2, -2, 0, 3, -3])       # a side that is not +-1
+        elif u == 3:
+            ops.insert(r.randrange(len(ops) + 1), ["X", r.randrange(NST), r.randrange(NST), r.randrange(NST), r.randrange(NST)])
+        elif u == 4 and xi:
+            del ops[r.choice(xi)]
+        elif u == 5:
+            relax = r.choice([0, 1, 2])
+        elif u == 6:
+            order = r.choice([1, 2, 4])
+        elif u == 7 and ti:
+            ops[r.choice(ti)][4] = r.choice([2, 4, 5])               # interval (4, 5: outside the arrays)
+        elif u == 8 and ti:
+            for i in ti:
+                ops[i][4] = 0                                        # no interval named: widths stay None
+        elif u == 9 and ti:
+            ops.insert(r.randrange(len(ops) + 1), list(ops[r.choice(ti)]))   # a fifth interaction
+        elif u == 10 and ti:
+            del ops[r.choice(ti)]
+        elif u == 11 and xi:
+            i = r.choice(xi)
+            ops[i][3], ops[i][4] = ops[i][4], ops[i][3]              # declared start swapped
+    E = [0] + sorted(r.sample(range(5, 30), NST - 1))
+    dd = {}
+    for n in range(NST):
+        for m in range(n + 1, NST):
+            dd["%d,%d" % (n, m)] = rvec(r)
+    rho = [r.choice([1.0, 0.5, 0.25, 0.0]) for _ in range(NST)]
+    return {"kind": "obj", "diagram": name, "ptype": ptype if r.random() < 0.95 else "DC", "sinit": st["g"], "order": order, "relax": relax,
+            "popt": popt, "ops": ops, "E": E, "dd": dd, "rho": rho, "pol": rpol(r)}
+
+
+class StubAggregate2:
+    def __init__(self, c):
+        import numpy
+        self.HH = numpy.diag([float(x) for x in c["E"]])
+        self.DD = numpy.zeros((NST, NST, 3))
+        for key, v in c["dd"].items():
+            n, m = [int(x) for x in key.split(",")]
+            self.DD[n, m, :] = v
+            self.DD[m, n, :] = v
+        self.rho0 = numpy.zeros((NST, NST), dtype=complex)
+        for n in range(NST):
+            self.rho0[n, n] = c["rho"][n]
+
+
+def run_obj(chk, c):
+    import numpy
+    from quantarhei.spectroscopy import diagramatics as diag
+    agg = StubAggregate2(c)
+    lab = make_lab(c["pol"])
+    res, raised = None, None
+    try:
+        lp = diag.liouville_pathway(c["ptype"], c["sinit"], aggregate=agg, order=c["order"], pname=c["diagram"],
+                                    relax_order=c["relax"], popt_band=c["popt"])
+        for o in c["ops"]:
+            if o[0] == "T":
+                lp.add_transition((o[1], o[2]), o[3], interval=o[4], width=o[5], deph=o[6])
+            elif o[0] == "X":
+                lp.add_transfer((o[1], o[2]), (o[3], o[4]))
+            else:
+                lp.set_evolution_factor(complex(o[1], o[2]))
+        res = {"cur": [int(lp.current[0]), int(lp.current[1])], "nint": int(lp.nint), "nrel": int(lp.nrel), "ne": int(lp.ne),
+               "trans": [[int(a), int(b)] for a, b in lp.transitions.tolist()], "sides": [int(x) for x in lp.sides.tolist()],
+               "dm": [[float(x) for x in row] for row in lp.dmoments.tolist()], "freq": [float(x) for x in lp.frequency.tolist()],
+               "wd": None if lp.widths is None else [[float(x) for x in lp.widths], [float(x) for x in lp.dephs]],
+               "evf": complex(lp.evolfac), "built": None}
+        if c["order"] == 3:
+            lp.build()
+            lp.orientational_averaging(lab)
+            res["built"] = [[float(x) for x in lp.F4n], int(lp.sign), complex(lp.pref)]
+    except (IndexError, Exception) as e:
+        if type(e) not in (Exception, IndexError):
+            raise
+        res, raised = None, "%s: %s" % (type(e).__name__, str(e)[:60])
+    chk.count("obj:" + ("raised:" + raised.split(":")[0] if raised else "completed"))
+    ntot = NST
+    DD = agg.DD.tolist()
+    obs = ("(mkObs [] [] [] %s %s [] %s [] [] [] 0 0 0)" % (
+        cm.clist([ql(x) for x in c["E"]]), cm.clist([cm.clist([cm.clist([ql(x) for x in v]) for v in row]) for row in DD]),
+        cm.clist([ql(x) for x in c["rho"]])))
+    call = '(mkCall "%s"%%string %d%%nat %d%%nat "%s"%%string %d%%nat %d%%nat)' % (c["ptype"], c["sinit"], c["order"], c["diagram"], c["relax"], c["popt"])
+    ops = []
+    for o in c["ops"]:
+        if o[0] == "T":
+            ops.append("(@XT GQ %d%%nat %d%%nat %s %d%%nat (r2 %s) (r2 %s))" % (o[1], o[2], cm.zlit(o[3]), o[4], ql(o[5]), ql(o[6])))
+        elif o[0] == "X":
+            ops.append("(@XX GQ %d%%nat %d%%nat %d%%nat %d%%nat)" % (o[1], o[2], o[3], o[4]))
+        else:
+            ops.append("(@XE GQ (c2 %s))" % cq(complex(o[1], o[2])))
+    if res is None:
+        rl = "None"
+    else:
+        wd = "None" if res["wd"] is None else "(Some (%s, %s))" % (cm.clist([ql(x) for x in res["wd"][0]]), cm.clist([ql(x) for x in res["wd"][1]]))
+        bt = "None" if res["built"] is None else "(Some (%s, %s, %s))" % (cm.clist([ql(x) for x in res["built"][0]]), cm.zlit(res["built"][1]),
+                                                                        cq(res["built"][2]))
+        rl = ("(Some (mkOobj (%d%%nat, %d%%nat) %d%%nat %d%%nat %d%%nat %s %s %s %s %s %s %s))" % (
+            res["cur"][0], res["cur"][1], res["nint"], res["nrel"], res["ne"],
+            cm.clist(["(%d%%nat, %d%%nat)" % (a, b) for a, b in res["trans"]]), cm.clist([cm.zlit(x) for x in res["sides"]]),
+            cm.clist([cm.clist([ql(x) for x in row]) for row in res["dm"]]), cm.clist([ql(x) for x in res["freq"]]), wd, cq(res["evf"]), bt))
+    chk.case(c, res is not None and len(c["ops"]) >= 4, sample={"case": c, "raised": raised})
+    return "(%s, %s, %s, %s, %s)" % (obs, pol_lit(c["pol"]), call, cm.clist(ops), rl)
+
+
+def gen_sel(r, k):
+    relax = r.choice([0, 1])
+    return {"kind": "sel", "relax": relax, "freq": [r.choice([-12, -11, -9.5, 9, 10, 11.5, 1, 0]) for _ in range(4 + relax)],
+            "w": [r.choice([-1.0, 0.5, 0.75, 1.5, 0.0]) for _ in range(2)], "g": [r.choice([-1.0, 0.125, 0.25, 1.0]) for _ in range(2)],
+            "reph": r.random() < 0.5, "shape": r.choice(["Gaussian", "Lorentzian"]), "dflt": r.sample([2.0, 3.0, 5.0, 7.0, 11.0], 4)}
+
+
+def run_sel(chk, c):
+    """MockTwoDResponseCalculator.calculate_pathway with recording line-shape functions: what reaches them"""
+    import numpy
+    import types
+    import quantarhei as qr
+    from quantarhei.spectroscopy import mocktwodcalculator as mod
+    t1 = qr.TimeAxis(0.0, 8, 0.5)
+    t3 = qr.TimeAxis(0.0, 8, 0.5)
+    t2 = qr.TimeAxis(0.0, 2, 1.0)
+    calc = mod.MockTwoDResponseCalculator(t1, t2, t3)
+    calc.bootstrap(rwa=10.5, shape=c["shape"])
+    calc.widthx, calc.widthy, calc.dephx, calc.dephy = c["dflt"]
+    seen = []
+
+    def rec(tag):
+        def f(o1, c1, w1, o3, c3, w3, corr=0.0):
+            seen.append((tag, numpy.array(o1), float(c1), float(w1), numpy.array(o3), float(c3), float(w3)))
+            return numpy.zeros((len(o1), len(o3)), dtype=complex)
+        return f
+    keep = (mod.gaussian2D, mod.lorentzian2D)
+    mod.gaussian2D, mod.lorentzian2D = rec(True), rec(False)
+    try:
+        widths = numpy.array([-1.0, c["w"][0], -1.0, c["w"][1]])
+        dephs = numpy.array([-1.0, c["g"][0], -1.0, c["g"][1]])
+        pw = types.SimpleNamespace(order=3, relax_order=c["relax"], frequency=numpy.array(c["freq"], dtype=float), pref=1.0, widths=widths,
+                                   dephs=dephs, pathway_type="R" if c["reph"] else "NR")
+        calc.calculate_pathway(pw, shape=c["shape"])
+    finally:
+        mod.gaussian2D, mod.lorentzian2D = keep
+    if len(seen) != 1:
+        chk.violation("sel:calls", "calculate_pathway called the line-shape functions %d times" % len(seen), "monitor", c)
+        chk.case(c, False)
+        return None
+    tag, o1, c1, w1, o3, c3, w3 = seen[0]
+    neg1 = numpy.array_equal(o1, -calc.oa1.data)
+    pos1 = numpy.array_equal(o1, calc.oa1.data)
+    if neg1 == pos1 or not numpy.array_equal(o3, calc.oa3.data):
+        chk.violation("sel:axes", "calculate_pathway handed unexpected frequency axes to the line-shape function", "monitor", c)
+    chk.count("sel:%s,%s" % (c["shape"], "R" if c["reph"] else "NR"))
+    used_default = (c["w"][0] < 0) or (c["w"][1] < 0) or (c["g"][0] < 0)
+    chk.case(c, used_default, sample={"case": c, "handed": [tag, bool(neg1), c1, w1, c3, w3]})
+    return "(%s, (%s, %s, %s, %s), %s, %s, (%s, %s, %s, %s), (%s, %s, %s, %s, %s, %s))" % (
+        cm.clist([ql(x) for x in c["freq"]]), ql(c["w"][0]), ql(c["w"][1]), ql(c["g"][0]), ql(c["g"][1]), bl(c["reph"]),
+        bl(c["shape"] == "Gaussian"), ql(c["dflt"][0]), ql(c["dflt"][1]), ql(c["dflt"][2]), ql(c["dflt"][3]),
+        bl(tag), bl(neg1), ql(c1), ql(w1), ql(c3), ql(w3))
+
 # ------------------------------------------------------------------ run
-IMPORTS = "From QV Require Import Base.Alg Base.Util Model.C19 Model.C12.\n"
+IMPORTS = "From Coq Require String.\nImport String.StringSyntax.\nDelimit Scope string_scope with string.\nFrom QV Require Import Base.Alg Base.Util Model.C19 Model.C12 Model.C12x.\n"
 ORIENT_DEF = ("Definition ocase := (list (list Q) * list (list Q) * Q * list Q)%type.\n"
               "Definition o_agrees (tol : Q) (c : ocase) : bool :=\n"
               "  let '(es, ds, v, fm) := c in\n"
@@ -601,6 +806,7 @@ TOLQ = "(Qmake 1 100000000000)"
 
 def run(chk, cases):
     gen_items, gen_meta, u_items, u_meta, o_items, o_meta = [], [], [], [], [], []
+    x_items, x_meta, s_items, s_meta = [], [], [], []
     for c in cases:
         kind = c["kind"]
         chk.count("kind:" + kind)
@@ -618,6 +824,14 @@ def run(chk, cases):
                 o_meta.append(c)
             elif kind == "calc":
                 run_calc(chk, c)
+            elif kind == "obj":
+                x_items.append(run_obj(chk, c))
+                x_meta.append(c)
+            elif kind == "sel":
+                lit = run_sel(chk, c)
+                if lit:
+                    s_items.append(lit)
+                    s_meta.append(c)
         except Exception as e:
             import traceback
             chk.violation("%s:exception:%s" % (kind, type(e).__name__), "%s case raised %r (%s) on %s"
@@ -638,6 +852,15 @@ def run(chk, cases):
         shards.append(cm.HEADER + IMPORTS + ORIENT_DEF + "Definition cs : list ocase := %s.\nEval vm_compute in (bad (o_agrees %s) cs).\n"
                       % (cm.clist(o_items[k:k + CO]), TOLQ))
         index.append(("orient", k, CO, o_meta))
+    CX = 40
+    for k in range(0, len(x_items), CX):
+        shards.append(cm.HEADER + IMPORTS + "Definition cs : list xocase := %s.\nEval vm_compute in (bad (xocase_agrees %s) cs).\n"
+                      % (cm.clist(x_items[k:k + CX]), TOLQ))
+        index.append(("object", k, CX, x_meta))
+    for k in range(0, len(s_items), 100):
+        shards.append(cm.HEADER + IMPORTS + "Definition cs : list selcase := %s.\nEval vm_compute in (bad (selcase_agrees %s) cs).\n"
+                      % (cm.clist(s_items[k:k + 100]), TOLQ))
+        index.append(("selection", k, 100, s_meta))
     results = cm.coq_eval(PID, shards)
     for (kind, k, ch, meta), (rc, out) in zip(index, results):
         if rc != 0:
@@ -680,7 +903,9 @@ def main():
                 "coherence factors, population transfer, vanishing elements) for uncoupled ones; orientational cases: integer "
                 "polarisation and dipole four-tuples; calculator cases: dimers/trimers, Gaussian/Lorentzian, rotations (proper and "
                 "improper), scale factors, relabellings. Non-trivial: >= 4 pathways / non-zero average with distinct polarisations / "
-                "non-zero spectrum with ESA; distinct by canonical input")
+                "non-zero spectrum with ESA; distinct by canonical input. Object cases: programs of calls on real liouville_pathway "
+                "objects (six diagrams, random states, 0-2 perturbations; non-trivial: completes with >= 4 calls); selection cases: "
+                "calculate_pathway with recording line shapes (non-trivial: a default is selected)")
     chk.assumptions = [
         "numpy.linalg.eigh (Aggregate.diagonalize, eigenbasis_of) is an oracle: the model runs on the observed exciton-basis HH, DD, D2, "
         "rho0, eUt2 and width/dephasing tables",
@@ -690,6 +915,10 @@ def main():
         "(rotations by float matrices), 1e-12 for total = R + NR, exact for scaling by powers of two; calculator tolerances are relative "
         "to the input scale sum_pathways max|line shape| x max|d|^4 x |e0||e1||e2||e3| / 5 (does not vanish with the prefactors), "
         "absolute floor 1e-290",
+        "static tie: the generators, liouville_pathways_3T's dispatch, the liouville_pathway methods, LabSetup's M4 / F4e / F4eM4 and the "
+        "calculator's selection are translated from the current source (harness/translate_c12.py: recursive statement translator and "
+        "statement templates with holes; fail-closed) and proved equal to Model/C12.v / C12x.v in a generated file; the translator is "
+        "trusted to read the ast faithfully; glue statements (thresholds, evolution superoperator in the eigenbasis) are matched verbatim",
         "cited mathematics: the icosahedral rotation group is a 5-design on SO(3), hence its average of a quartic form equals the Haar "
         "average; monitored against an Euler-angle product quadrature that is exact for degree 4",
     ]
@@ -702,10 +931,14 @@ def main():
     else:
         r = cm.rng(PID)
         ng, no, nc = (42, 120, 10) if args.tier == "quick" else (400, 1500, 90)
+        nx, ns = (150, 60) if args.tier == "quick" else (3000, 600)
         cases = [dict(c) for c in CORPUS]
         cases += [gen_system(r, k, args.tier) for k in range(ng)]
         cases += [gen_orient(r, k) for k in range(no)]
         cases += [gen_calc(r, k, args.tier) for k in range(nc)]
+        r2 = cm.rng(PID + "-object")       # a separate stream: the earlier cases stay what they were
+        cases += [gen_obj(r2, k) for k in range(nx)]
+        cases += [gen_sel(r2, k) for k in range(ns)]
     run(chk, cases)
     chk.finish()
 
